@@ -131,7 +131,12 @@ def run(tier, replay):
     for a in EDGE[::2] + [rng.randint(-32768, 32767) for _ in range(12)]:
         lo, hi = (a & 0xffff) & 0xff, (a & 0xffff) >> 8
         for head, tail in (("N% = 7\r\nM& = 70000\r\nP\r\nSUB P\r\n", "END SUB\r\n"), ("N% = 7\r\nP\r\nP\r\nSUB P STATIC\r\n", "END SUB\r\n"),
-                           ("DIM G%(3)\r\nN% = F%\r\nFUNCTION F%\r\n", "END FUNCTION\r\n"), ("DIM SHARED X%\r\nN% = 7\r\nP\r\nSUB P\r\n", "END SUB\r\n")):
+                           ("DIM G%(3)\r\nN% = F%\r\nFUNCTION F%\r\n", "END FUNCTION\r\n"), ("DIM SHARED X%\r\nN% = 7\r\nP\r\nSUB P\r\n", "END SUB\r\n"),
+                           # strings of several lengths (none, two, four, six characters) among the variables of the module, of
+                           # a calling procedure and of the procedure itself: where a variable stands does not depend on them
+                           ('N% = 7\r\nS$ = "hello!"\r\nT$ = ""\r\nP\r\nSUB P\r\nL$ = "ab"\r\n', "END SUB\r\n"),
+                           ('S$ = "abcdefg"\r\nU$ = "four"\r\nCALLER\r\nSUB CALLER\r\nQS$ = "x"\r\nQN% = 3\r\nP\r\nEND SUB\r\nSUB P\r\n', "END SUB\r\n"),
+                           ('DIM FX AS STRING * 5\r\nS$ = "hello world"\r\nN% = F%\r\nFUNCTION F%\r\nL$ = "abc"\r\n', "END FUNCTION\r\n")):
             for segline in ("DEF SEG = VARSEG(X%)\r\n", "", "DIM Q%(2)\r\nQ%(1) = 1027\r\nDEF SEG = VARSEG(Q%(1))\r\nDEF SEG\r\n"):
                 progs.append(head + "W%% = 1\r\nX%% = %d\r\nY%% = 2\r\n" % a + segline + "PRINT PEEK(VARPTR(X%)); PEEK(VARPTR(X%) + 1); W%; Y%\r\n" + tail)
                 pmeta.append(("peek", a))
